@@ -21,6 +21,11 @@ VERIF = os.path.dirname(os.path.dirname(os.path.abspath(__file__)))
 REPO = '/repo'
 
 
+def scratch_base():
+    import tempfile
+    return '/dev/shm' if os.path.isdir('/dev/shm') and os.access('/dev/shm', os.W_OK) else tempfile.gettempdir()
+
+
 def parse_header(path):
     props, tier = [], 'quick'
     with open(path) as f:
@@ -63,7 +68,7 @@ def expected_miss(name, path):
 
 def run_one(name, path, budget=None):
     props, tier = props_of(name, path)
-    scratch = '/dev/shm/txdbus-mut-%d-%s' % (os.getpid(), name.replace('/', '_'))
+    scratch = os.path.join(scratch_base(), 'txdbus-mut-%d-%s' % (os.getpid(), name.replace('/', '_')))
     shutil.rmtree(scratch, ignore_errors=True)
     os.makedirs(scratch)
     results = []
